@@ -341,6 +341,10 @@ type Syncer struct {
 	inflightSubnet map[string]int // subnet key -> live inbound handler count
 }
 
+// errNoCommonHistory is returned by the header fetch of syncLoop when the peer
+// knows none of the blocks of our history sample.
+var errNoCommonHistory = errors.New("no common history")
+
 func (s *Syncer) resync(p *Peer, reason string) {
 	if p.requestResync() {
 		s.log.Debug("resync triggered", zap.String("peer", p.t.Addr), zap.String("reason", reason))
@@ -859,7 +863,7 @@ func (s *Syncer) syncLoop(ctx context.Context) error {
 						}
 						return cs, headers, remaining, nil
 					}
-					return consensus.State{}, nil, 0, errors.New("no common history")
+					return consensus.State{}, nil, 0, errNoCommonHistory
 				}()
 				respChan <- resp{peer: p, resyncs: resyncs, cs: cs, headers: headers, remaining: remaining, err: err}
 			}(p)
@@ -867,7 +871,15 @@ func (s *Syncer) syncLoop(ctx context.Context) error {
 		// sync each set of headers as they arrive
 		seen := make(map[types.BlockID]bool)
 		for range peers {
-			if r := <-respChan; r.err != nil {
+			if r := <-respChan; errors.Is(r.err, errNoCommonHistory) {
+				// none of the blocks we sampled is on the peer's chain. With a
+				// common genesis that only happens when the peer does not have
+				// the old blocks - it was started from a checkpoint and has not
+				// caught up yet. There is nothing to fetch from it, but it is
+				// not misbehaving: disconnecting it here would cut it off
+				// before its own sync from us has got anywhere.
+				r.peer.markSynced(r.resyncs)
+			} else if r.err != nil {
 				r.peer.setErr(r.err)
 			} else if len(r.headers) == 0 {
 				r.peer.markSynced(r.resyncs)
